@@ -158,11 +158,11 @@ def run(ctx):
         o = [int(x) * 2 for x in rng.integers(-20, 21, 3)] if rng.random() < .6 else [0, 0, 0]
         V = np.array(v)
         # the same cell expressed in a much smaller / larger length unit (power of two: every float operation scales exactly)
-        k = [1.0, 2.0 ** -32, 2.0 ** 24][ci % 3]
+        k = [1.0, 2.0 ** -32, 2.0 ** 24][int(rng.integers(0, 3))]
         base = {'v': v, 'o': o, 'q': Q, 'tag': 'cell%d' % ci, 'unit': k}
         detn = int(round(np.linalg.det(V.astype(float))))
         try:
-            how = ci % 4
+            how = int(rng.integers(0, 4))
             if how == 0 or not lam:
                 box = am.Box(vects=V / Q * k, origin=np.array(o) / Q * k)
             elif how == 1:
